@@ -125,6 +125,23 @@ def main():
             except Exception:
                 continue
             check_result(run, f'{tag} (independent document)', f'{tag}:e{k}', m, {'document': text[:1500]}, ref=d)
+    # Glencoe allows mandatory members inside a group: documents whose groups have only such members, or one optional member
+    for gk, (gtype, extra) in enumerate([('XOR', {}), ('OR', {}), ('GENOR', {'min': 0, 'max': 1})]):
+        for n_opt in (0, 1):
+            feats = {'r': dict({'name': 'Root', 'type': gtype, 'optional': True, 'note': ''}, **extra),
+                     'a': {'name': 'A', 'type': 'FEATURE', 'optional': False, 'note': ''},
+                     'b': {'name': 'B', 'type': gtype, 'optional': n_opt == 1, 'note': '', **extra},
+                     'c': {'name': 'C', 'type': 'FEATURE', 'optional': False, 'note': ''},
+                     'd': {'name': 'D', 'type': 'FEATURE', 'optional': False, 'note': ''}}
+            tree = {'id': 'r', 'children': [{'id': 'a'}, {'id': 'b', 'children': [{'id': 'c'}, {'id': 'd'}]}]}
+            text = json.dumps({'id': 'FM', 'name': 'FM', 'features': feats, 'tree': tree, 'constraints': {}})
+            p = os.path.join(tmp, f'gm{gk}{n_opt}.gfm.json')
+            open(p, 'w', encoding='utf-8').write(text)
+            try:
+                m = GlencoeReader(p).transform()
+            except Exception:
+                continue
+            check_result(run, 'Glencoe (independent document)', f'Glencoe:mandatory-members:{gtype}:{n_opt}', m, {'document': text}, ref=None)
     if aggregate_seen:
         run.case('get_features on constraints with aggregate functions', 'aggregate', False, aggregate_seen[0], known='C02_aggregate_features')
     run.finish('per reader: documents written by the library from random fragment models with random constraints, and documents from '
